@@ -119,7 +119,7 @@ def restricted_spec(wdir, props):
     name = "ApiTrace_" + "_".join(props)
     out = []
     for line in src.splitlines():
-        m = re.match(r"\s+JC02, JC03.*", line)
+        m = re.match(r"\s+JC01, JC02.*", line)
         if m:
             out.append("        " + ", ".join("J" + p for p in props))
             continue
@@ -132,8 +132,6 @@ def restricted_spec(wdir, props):
             if m.group(2) in props:
                 out.append("    [] e.p = \"%s\" -> %s" % (m.group(2), m.group(3)))
             continue
-        if "GhostC08" in line and "C08" not in props:
-            line = "  IN base"
         out.append(line.replace("MODULE ApiTrace ", "MODULE %s " % name))
     spec = os.path.join(wdir, name + ".tla")
     open(spec, "w").write("\n".join(out) + "\n")
